@@ -147,7 +147,7 @@ def spell(lines, maxacts, acts, timeout=3000, chk=None):
 def canon_lines(chk=None):
     """canonical lines with their canonical Intel layout and (where it exists) AT&T transliteration; cached"""
     cdir = os.path.join(core.VERIF, '.cache')
-    cf = os.path.join(cdir, 'asmcanon_%s.json' % spec_hash(SPEC_DEPS + ('Spelling.tla',)))
+    cf = os.path.join(cdir, 'asmcanon_v3_%s.json' % spec_hash(SPEC_DEPS + ('Spelling.tla',)))
     if os.path.exists(cf):
         d = json.load(open(cf))
         if chk is not None:
@@ -156,13 +156,16 @@ def canon_lines(chk=None):
     lines = gen_lines(chk)
     for i, l in enumerate(lines):
         l['id'] = i
-    sts, r = spell(lines, 1, ['ToAtt', 'DispSplit'], chk=chk)
+    from . import asm_text
+    sts, r = spell(lines, 1, ['ToAtt', 'DispSplit', 'NumBase'], chk=chk)
     for s in sts:
-        if s['pres'].get('dsp', 'one') != 'one':
-            if s['pres']['dsp'] == 'pm':
-                lines[s['lid']]['intel_split'] = s['line']       # the displacement written as constant arithmetic ([ebx+8-4])
-        else:
+        if s['pres'].get('dsp', 'one') == 'one' and s['pres'].get('nb', 'dec') == 'dec':
             lines[s['lid']][s['line']['syn']] = s['line']
+    for s in sts:
+        if s['pres'].get('dsp', 'one') == 'pm':
+            lines[s['lid']]['intel_split'] = s['line']           # the displacement written as constant arithmetic ([ebx+8-4])
+        elif s['pres'].get('nb', 'dec') == 'dec0' and asm_text.render(s['line']) != asm_text.render(lines[s['lid']]['intel']):
+            lines[s['lid']]['intel_dec0'] = s['line']            # small numbers with a leading zero (04)
     d = {'lines': lines, 'states': r.distinct, 'transitions': r.generated}
     tmp = cf + '.%d' % os.getpid()
     json.dump(d, open(tmp, 'w'))
